@@ -73,7 +73,20 @@ def main(argv=None):
 
     if args.replay:
         return do_replay(mod_name, args.replay)
+    code, ev = run_symx(mod, mod_name, prop, args, seed)
+    if ev is not None and not args.no_evidence and not args.cell:
+        save_evidence(prop, ev)
+    return code
 
+
+def save_evidence(prop, ev):
+    os.makedirs(os.path.join(VERIF, 'evidence'), exist_ok=True)
+    with open(os.path.join(VERIF, 'evidence', f"{prop}.json"), 'w') as f:
+        json.dump(ev, f, indent=1, default=str)
+
+
+def run_symx(mod, mod_name, prop, args, seed):
+    """run every symx cell of a harness module; returns (exit code, evidence dict)"""
     t0 = time.time()
     cells = mod.cells(args.tier, seed)
     for c in cells:
@@ -196,14 +209,13 @@ def main(argv=None):
           f"solver_s={stats.get('solver_s', 0):.1f} native_runs={tot['native_runs']} violations={len(violations)} "
           f"known={len(known_hits)} inconclusive={len(inconclusive)} boundary_only={len(boundary_only)} wall={wall:.1f}s")
 
-    if not args.no_evidence and not args.cell:
-        write_evidence(mod, prop, args.tier, seed, cells, tot, stats, functions, samples, outcomes, labels,
-                       violations, known_hits, inconclusive, wall, boundary_only, n_div)
+    ev = write_evidence(mod, prop, args.tier, seed, cells, tot, stats, functions, samples, outcomes, labels,
+                        violations, known_hits, inconclusive, wall, boundary_only, n_div)
     if violations:
-        return EXIT_VIOLATION
+        return EXIT_VIOLATION, ev
     if inconclusive:
-        return EXIT_INCONCLUSIVE
-    return EXIT_OK
+        return EXIT_INCONCLUSIVE, ev
+    return EXIT_OK, ev
 
 
 def write_evidence(mod, prop, tier, seed, cells, tot, stats, functions, samples, outcomes, labels, violations,
@@ -250,9 +262,7 @@ def write_evidence(mod, prop, tier, seed, cells, tot, stats, functions, samples,
         'wall_s': round(wall, 2),
         'violations': len(violations),
     }
-    os.makedirs(os.path.join(VERIF, 'evidence'), exist_ok=True)
-    with open(os.path.join(VERIF, 'evidence', f"{prop}.json"), 'w') as f:
-        json.dump(ev, f, indent=1, default=str)
+    return ev
 
 
 COMMON_ASSUMPTIONS = [
